@@ -115,6 +115,15 @@ func (d *DateTime) UnmarshalUT0311L0x(b []byte) (any, error) {
 		return nil, err
 	}
 
+	// ... zero value DateTime{} is marshalled as 0001-01-01 00:00:00
+	if decoded == "00010101000000" {
+		if d == nil {
+			return nil, nil
+		} else {
+			return &DateTime{}, nil
+		}
+	}
+
 	datetime, err := time.ParseInLocation("20060102150405", decoded, time.Local)
 	if err != nil {
 		return &DateTime{}, nil
